@@ -543,10 +543,46 @@ func runC14(c *Ctx) {
 		if fn == nil {
 			continue
 		}
+		// the encoding may live in Process itself or in one package-local helper it calls
+		encFn := fn
+		var helperCall *ssa.Call
 		encs := callsTo(fn, func(n string, cc *ssa.CallCommon) bool { return n == "(*encoding/json.Encoder).Encode" })
+		if len(encs) == 0 {
+			for _, ci := range callsTo(fn, func(n string, cc *ssa.CallCommon) bool {
+				sc := cc.StaticCallee()
+				return sc != nil && PkgPathOf(sc) == PkgRoot && sc.Blocks != nil && len(callsTo(sc, func(n2 string, _ *ssa.CallCommon) bool { return n2 == "(*encoding/json.Encoder).Encode" })) > 0
+			}) {
+				if call, ok := ci.(*ssa.Call); ok && helperCall == nil {
+					helperCall = call
+					encFn = call.Call.StaticCallee()
+					encs = callsTo(encFn, func(n string, cc *ssa.CallCommon) bool { return n == "(*encoding/json.Encoder).Encode" })
+				}
+			}
+		}
 		if len(encs) != 1 {
-			r.Bad("C14.struct", recv+":encode", p.Pos(fn.Pos()), fmt.Sprintf("%d Encode calls (expected one json.Encoder.Encode; json.Marshal would drop the trailing newline)", len(encs)))
+			r.Bad("C14.struct", recv+":encode", p.Pos(fn.Pos()), fmt.Sprintf("%d Encode calls (expected one json.Encoder.Encode, in Process or in one helper it calls; json.Marshal would drop the trailing newline)", len(encs)))
 			continue
+		}
+		r.SawFn(p.ShortFn(encFn))
+		// the event as seen by the encoding function
+		evParam := ""
+		for i, prm := range encFn.Params {
+			if typeShort(prm.Type()) == "eventlogger.Event" {
+				evParam = fmt.Sprintf("Param(%d:%s)", i, prm.Name())
+			}
+		}
+		if helperCall != nil {
+			// the helper must be handed Process's own event
+			okArg := false
+			for _, a := range helperCall.Call.Args {
+				if tb.Of(a).IsParam("2:e") {
+					okArg = true
+				}
+			}
+			if !okArg {
+				r.Bad("C14.struct", recv+":helper-arg", p.InstrPos(helperCall), "the encoding helper is not given the event being processed")
+				continue
+			}
 		}
 		enc := encs[0].(*ssa.Call)
 		arg := stripConv(enc.Call.Args[1])
@@ -565,21 +601,45 @@ func runC14(c *Ctx) {
 					for _, r2 := range nonDebugRefs(fa) {
 						if sto, ok := r2.(*ssa.Store); ok {
 							tag := strings.Split(structTagGet(st.Tag(fa.Field), "json"), ",")[0]
-							src[tag] = tb.Of(sto.Val).String()
+							src[tag] = strings.ReplaceAll(tb.Of(sto.Val).String(), evParam, "EVENT")
 						}
 					}
 				}
 			}
 		}
-		okSrc := src["created_at"] == "Field[CreatedAt](Param(2:e))" && src["event_type"] == "Field[Type](Param(2:e))" && src["payload"] == "Field[Payload](Param(2:e))"
+		okSrc := src["created_at"] == "Field[CreatedAt](EVENT)" && src["event_type"] == "Field[Type](EVENT)" && src["payload"] == "Field[Payload](EVENT)"
 		shapes = append(shapes, strings.Join(mem, ",")+"|"+src["created_at"]+"|"+src["event_type"]+"|"+src["payload"])
 		r.Check(okMem && okSrc, "C14.struct", recv+":members", p.InstrPos(enc), "members created_at,event_type,payload from e.CreatedAt, e.Type, e.Payload", fmt.Sprintf("encoded members %v filled from %v", mem, src))
-		// encoder over the formatter's own buffer
+		// encoder over a buffer that is PRIVATE to this call (freshly allocated here): bytes stored in
+		// the event must not alias memory that is reused later (pool, field, global)
 		et := tb.Of(enc.Call.Args[0])
 		okEnc := et.Op == "Call" && et.Name == "encoding/json.NewEncoder" && et.Args[0].Op == "Alloc"
 		var buf ssa.Value
 		if okEnc {
 			buf = et.Args[0].V
+		} else {
+			r.Bad("C14.store", recv+":private-buffer", p.InstrPos(enc), "the encoder does not write into a buffer freshly allocated by this call ("+et.String()+"): the bytes stored in the event would alias memory that is reused for later events")
+		}
+		// helper contract: returns (buf.Bytes(), nil) only after Encode succeeded
+		if helperCall != nil {
+			okHelper := true
+			for _, pa := range c.enum("C14.store", encFn, PathOpts{}) {
+				rv := pa.RetVals()
+				if rv == nil || len(rv) != 2 {
+					okHelper = false
+					continue
+				}
+				pol, found := hasAtom(pa, func(at Atom) bool { return at.Op == "eq" && at.L.V == ssa.Value(enc) && at.R.Is("Const", "nil") })
+				bt := pa.TermsAt(pa.LastStep()).Of(rv[0])
+				if found && pol {
+					if !(isNilConst(rv[1]) && bt.Op == "Call" && bt.Name == "(*bytes.Buffer).Bytes" && bt.Args[0].V == buf) {
+						okHelper = false
+					}
+				} else if isNilConst(rv[1]) {
+					okHelper = false
+				}
+			}
+			r.Check(okHelper, "C14.store", recv+":helper", p.Pos(encFn.Pos()), "the encoding helper returns (bytes of its own buffer, nil) only after Encode succeeded and an error otherwise", "the encoding helper does not return exactly its buffer's bytes on success / an error on failure")
 		}
 		// C14.store on paths
 		nFwd := 0
@@ -594,7 +654,15 @@ func runC14(c *Ctx) {
 					fas = append(fas, s)
 				}
 			}
-			pol, found := hasAtom(pa, func(at Atom) bool { return at.Op == "eq" && at.L.V == ssa.Value(enc) && at.R.Is("Const", "nil") })
+			pol, found := hasAtom(pa, func(at Atom) bool {
+				if at.Op != "eq" || !at.R.Is("Const", "nil") {
+					return false
+				}
+				if helperCall != nil {
+					return at.L.Op == "Extract" && at.L.Name == "1" && at.L.Args[0].V == ssa.Value(helperCall)
+				}
+				return at.L.V == ssa.Value(enc)
+			})
 			encOK := found && pol
 			if !encOK {
 				if len(fas) > 0 || !isNilConst(rv[0]) || isNilConst(rv[1]) {
@@ -609,8 +677,12 @@ func runC14(c *Ctx) {
 			a := fas[0].In.(ssa.CallInstruction).Common().Args
 			ftb := pa.TermsAt(fas[0])
 			bt := ftb.Of(a[2])
-			okSt := ftb.Of(a[0]).IsParam("2:e") && ftb.Of(a[1]).Is("Const", `"json"`) && bt.Op == "Call" && bt.Name == "(*bytes.Buffer).Bytes" && bt.Args[0].V == buf && okEnc
-			r.Check(okSt, "C14.store", recv+":store", p.InstrPos(fas[0].In), "e.FormattedAs(\"json\", buf.Bytes()) with the encoder's own buffer, only after Encode succeeded", "the formatted bytes are not stored as FormattedAs(\"json\", bytes of the buffer the encoder wrote)")
+			okBytes := bt.Op == "Call" && bt.Name == "(*bytes.Buffer).Bytes" && bt.Args[0].V == buf && okEnc
+			if helperCall != nil {
+				okBytes = bt.Op == "Extract" && bt.Name == "0" && bt.Args[0].V == ssa.Value(helperCall) && okEnc
+			}
+			okSt := ftb.Of(a[0]).IsParam("2:e") && ftb.Of(a[1]).Is("Const", `"json"`) && okBytes
+			r.Check(okSt, "C14.store", recv+":store", p.InstrPos(fas[0].In), "e.FormattedAs(\"json\", buf.Bytes()) with the encoder's own private buffer, only after Encode succeeded", "the formatted bytes are not stored as FormattedAs(\"json\", bytes of the private buffer the encoder wrote)")
 			if !isNilConst(rv[0]) {
 				nFwd++
 				if !ftb.Of(rv[0]).IsParam("2:e") {
@@ -623,6 +695,9 @@ func runC14(c *Ctx) {
 		}
 		c.eNilRule("C14.enil", fn, false)
 		c.errorFlowRule("C14.errors", fn, nil, false)
+		if encFn != fn {
+			c.errorFlowRule("C14.errors", encFn, nil, false)
+		}
 		// C14.pure
 		pure := true
 		eachInstr(fn, func(in ssa.Instruction) {
